@@ -139,7 +139,8 @@ pub mod sync {
     use std::sync::{LockResult, PoisonError, TryLockError, TryLockResult};
     use std::sync::{MutexGuard, RwLockReadGuard, RwLockWriteGuard};
 
-    /// `std::sync::Mutex` with a scheduling point before every acquisition.  Returns
+    /// `std::sync::Mutex` with a scheduling point before every acquisition and one right after it
+    /// (the thread holds the lock then).  Returns
     /// std's guard, so code using the guard is unchanged.
     #[derive(Debug, Default)]
     pub struct Mutex<T: ?Sized>(std::sync::Mutex<T>);
@@ -161,7 +162,11 @@ pub mod sync {
             loop {
                 point(loc, Op::Lock, addr);
                 match self.0.try_lock() {
-                    Ok(g) => return Ok(g),
+                    Ok(g) => {
+                        // holding the lock now: the thread may be pre-empted inside the critical section
+                        point(loc, Op::After, addr);
+                        return Ok(g);
+                    }
                     Err(TryLockError::Poisoned(p)) => return Err(PoisonError::new(p.into_inner())),
                     Err(TryLockError::WouldBlock) => {
                         if !super::blocked(addr) {
@@ -174,7 +179,11 @@ pub mod sync {
         #[track_caller]
         pub fn try_lock(&self) -> TryLockResult<MutexGuard<'_, T>> {
             point(Location::caller(), Op::TryLock, self as *const _ as *const u8 as usize);
-            self.0.try_lock()
+            let r = self.0.try_lock();
+            if r.is_ok() {
+                point(Location::caller(), Op::After, self as *const _ as *const u8 as usize);
+            }
+            r
         }
         pub fn is_poisoned(&self) -> bool {
             self.0.is_poisoned()
@@ -184,7 +193,7 @@ pub mod sync {
         }
     }
 
-    /// `std::sync::RwLock` with a scheduling point before every acquisition.
+    /// `std::sync::RwLock` with a scheduling point before every acquisition and one right after it.
     #[derive(Debug, Default)]
     pub struct RwLock<T: ?Sized>(std::sync::RwLock<T>);
 
@@ -205,7 +214,11 @@ pub mod sync {
             loop {
                 point(loc, Op::Read, addr);
                 match self.0.try_read() {
-                    Ok(g) => return Ok(g),
+                    Ok(g) => {
+                        // holding the lock now: the thread may be pre-empted inside the critical section
+                        point(loc, Op::After, addr);
+                        return Ok(g);
+                    }
                     Err(TryLockError::Poisoned(p)) => return Err(PoisonError::new(p.into_inner())),
                     Err(TryLockError::WouldBlock) => {
                         if !super::blocked(addr) {
@@ -222,7 +235,11 @@ pub mod sync {
             loop {
                 point(loc, Op::Write, addr);
                 match self.0.try_write() {
-                    Ok(g) => return Ok(g),
+                    Ok(g) => {
+                        // holding the lock now: the thread may be pre-empted inside the critical section
+                        point(loc, Op::After, addr);
+                        return Ok(g);
+                    }
                     Err(TryLockError::Poisoned(p)) => return Err(PoisonError::new(p.into_inner())),
                     Err(TryLockError::WouldBlock) => {
                         if !super::blocked(addr) {
@@ -235,12 +252,20 @@ pub mod sync {
         #[track_caller]
         pub fn try_read(&self) -> TryLockResult<RwLockReadGuard<'_, T>> {
             point(Location::caller(), Op::TryLock, self as *const _ as *const u8 as usize);
-            self.0.try_read()
+            let r = self.0.try_read();
+            if r.is_ok() {
+                point(Location::caller(), Op::After, self as *const _ as *const u8 as usize);
+            }
+            r
         }
         #[track_caller]
         pub fn try_write(&self) -> TryLockResult<RwLockWriteGuard<'_, T>> {
             point(Location::caller(), Op::TryLock, self as *const _ as *const u8 as usize);
-            self.0.try_write()
+            let r = self.0.try_write();
+            if r.is_ok() {
+                point(Location::caller(), Op::After, self as *const _ as *const u8 as usize);
+            }
+            r
         }
         pub fn get_mut(&mut self) -> LockResult<&mut T> {
             self.0.get_mut()
